@@ -948,7 +948,7 @@ func checkC11exit(w *World, r *Report, pfx string) {
 		return
 	}
 	bad := ""
-	n, _ := w.enumPaths(loop, pathOpts{InlineDepth: 2, Start: arm}, func(p *Path) {
+	n, _ := w.enumPaths(loop, pathOpts{InlineDepth: 3, Inline: w.helperInline(loop), Start: arm}, func(p *Path) {
 		okAb := false
 		for _, s := range p.storesTo(tBState, "aborted") {
 			if u, ok := s.Val.V.(*ssa.UnOp); ok && u.Op == token.NOT {
@@ -1108,7 +1108,7 @@ func ruleShutdownListeners(w *World, r *Report, pfx string) {
 	// the exit arm walks both groups
 	nCalls := 0
 	idx := map[int64]bool{}
-	w.enumPaths(loop, pathOpts{Start: arm, InlineDepth: 0}, func(p *Path) {
+	w.enumPaths(loop, pathOpts{Start: arm, InlineDepth: 3, Inline: w.helperInline(loop, walker)}, func(p *Path) {
 		c := 0
 		for _, ev := range p.Events {
 			if call, ok := ev.In.(*ssa.Call); ok && call.Call.StaticCallee() == walker {
@@ -1129,7 +1129,30 @@ func ruleShutdownListeners(w *World, r *Report, pfx string) {
 		}
 	})
 	nGroups := int64(2)
-	r.Check(int64(len(idx)) == nGroups && nCalls == 2, rule, "both decorator groups", w.pos(loop.Pos()), "prepend and append groups walked", "the exit arm does not notify the listeners of both decorator groups")
+	okGroups := int64(len(idx)) == nGroups && nCalls == 2
+	if !okGroups {
+		// or one call inside a complete loop over the groups array
+		for f := range w.unit(loop) {
+			for _, b := range f.Blocks {
+				for _, in := range b.Instrs {
+					if c, ok := in.(*ssa.Call); ok && c.Call.StaticCallee() == walker {
+						if l := innermostLoop(naturalLoops(f), b); l != nil && w.loopCoversGroups(l) {
+							for _, a := range c.Call.Args {
+								if ld, ok := a.(*ssa.UnOp); ok {
+									if ia, ok := ld.X.(*ssa.IndexAddr); ok {
+										if fr, ok := fieldOf(ia.X); ok && fr.Name == "decorGroups" {
+											okGroups = true
+										}
+									}
+								}
+							}
+						}
+					}
+				}
+			}
+		}
+	}
+	r.Check(okGroups, rule, "both decorator groups", w.pos(loop.Pos()), "prepend and append groups walked", "the exit arm does not notify the listeners of both decorator groups")
 }
 
 // ruleEndArm: the heap loop's end arm sends the heap to the notifier once, in a goroutine, iff the
